@@ -6,6 +6,7 @@ constant "METHOD " followed by the tokens of the template.
 import KinModel.RouterSpec
 import KinModel.Lemmas.C09Legacy
 import KinModel.Lemmas.C09LegacyLiteral
+import KinModel.Lemmas.C09LegacyComplete
 import KinModel.Lemmas.C09Spec
 namespace KinModel.Router
 
@@ -289,5 +290,95 @@ theorem varVals_slashfree : ∀ (path : List Suf) (ext : List Str), VarVals path
     · exact hv.1
     · exact varVals_slashfree r ext hv.2 (fun s hs => hn s (by simp [hs])) rem' hr' w hw
   | .all :: r, _, _, hn, _, _ => absurd rfl (hn Suf.all (by simp))
+
+/-! ### the other direction: a filling in the spec's sense is read by the key's suffix path -/
+
+theorem varThenLiteral_lits : ∀ (run : Str) (toks : List STok), varThenLiteral (run.map STok.lit ++ toks) = varThenLiteral toks
+  | [], _ => rfl
+  | c :: cs, toks => by simp [varThenLiteral, varThenLiteral_lits cs toks]
+
+/-- if no variable of the template is followed by more text in its segment, CreateNode's suffix path reads every filling of
+    the template with slash-free values -/
+theorem reads_of_ssubst : ∀ (f : Nat) (t : Str) (toks : List Tok), tokLoop f t = some toks → NoWildcard toks →
+    varThenLiteral (sparseS t) = false →
+    ∀ (vals : List Str) (p : Str), (∀ v ∈ vals, '/' ∉ v) → ssubst (sparseS t) vals = some p →
+      Reads (toks.map Tok.suf) vals p := by
+  intro f
+  induction f with
+  | zero => intro t toks h; simp [tokLoop] at h
+  | succ f ih =>
+    intro t toks h hnw hvt vals p hsl hss
+    cases t with
+    | nil =>
+      simp [tokLoop] at h
+      subst h
+      rw [sparseS_nil] at hss
+      cases vals with
+      | nil => simp [ssubst] at hss; subst hss; exact .nil
+      | cons v vs => simp [ssubst] at hss
+    | cons c cs =>
+      simp only [tokLoop] at h
+      split at h
+      · rename_i hc
+        subst hc
+        simp only [Option.map_eq_some_iff] at h
+        obtain ⟨toks', ht, rfl⟩ := h
+        rw [sparseS_cons_lit (by decide)] at hss hvt
+        simp only [ssubst, Option.map_eq_some_iff] at hss
+        obtain ⟨p', hp', rfl⟩ := hss
+        simp only [varThenLiteral] at hvt
+        have := ih cs toks' ht (fun tk htk => hnw tk (by simp [htk])) hvt vals p' hsl hp'
+        exact Reads.const ['/'] this
+      · split at h
+        · rename_i hc1 hc
+          subst hc
+          split at h
+          · simp at h
+          · rename_i name rest hb
+            simp only [Option.map_eq_some_iff] at h
+            obtain ⟨toks', ht, rfl⟩ := h
+            have hnotw : isWildcardName (trimSpaces name) = false := by
+              cases hw : isWildcardName (trimSpaces name) with
+              | false => rfl
+              | true =>
+                exfalso
+                exact hnw (if isWildcardName (trimSpaces name) = true then Tok.all (trimSpaces name) else Tok.var (trimSpaces name))
+                  List.mem_cons_self (trimSpaces name) (by simp [hw])
+            simp only [hnotw, Bool.false_eq_true, if_false] at hnw ⊢
+            rw [sparseS_var hb] at hss hvt
+            simp only [varThenLiteral, Bool.or_eq_false_iff] at hvt
+            cases vals with
+            | nil => simp [ssubst] at hss
+            | cons v vs =>
+              simp only [ssubst, Option.map_eq_some_iff] at hss
+              obtain ⟨p', hp', rfl⟩ := hss
+              have hr := ih rest toks' ht (fun tk htk => hnw tk (by simp [htk])) hvt.2 vs p'
+                (fun w hw => hsl w (by simp [hw])) hp'
+              refine Reads.var (hsl v (by simp)) ?_ hr
+              -- what follows the variable is the end or a '/'
+              cases hsr : sparseS rest with
+              | nil => rw [hsr] at hp'; cases vs <;> simp [ssubst] at hp'; exact Or.inl hp'
+              | cons tk0 tks =>
+                rw [hsr] at hp' hvt
+                cases tk0 with
+                | lit c0 =>
+                  simp only [ssubst, Option.map_eq_some_iff] at hp'
+                  obtain ⟨p'', _, rfl⟩ := hp'
+                  right
+                  have : c0 = '/' := by simpa using hvt.1
+                  simp [this]
+                | var n0 => simp at hvt
+        · rename_i hc1 hc2
+          simp only [Option.map_eq_some_iff] at h
+          obtain ⟨toks', ht, rfl⟩ := h
+          have hsplit : sparseS (c :: cs) = sparseS ((takeRun (c :: cs)).1 ++ (takeRun (c :: cs)).2) := by
+            rw [takeRun_append]
+          rw [hsplit, sparseS_run _ _ (takeRun_fst_nobrace _)] at hss hvt
+          rw [ssubst_lits_append] at hss
+          rw [varThenLiteral_lits] at hvt
+          simp only [Option.map_eq_some_iff] at hss
+          obtain ⟨p', hp', rfl⟩ := hss
+          have := ih _ toks' ht (fun tk htk => hnw tk (by simp [htk])) hvt vals p' hsl hp'
+          exact Reads.const _ this
 
 end KinModel.Router
